@@ -549,5 +549,12 @@ def r11(F, R):
     R.floor(5)
 
 
+def r12(F, R):
+    """"... if a parser error was delivered": every item of the runner's stream — parser errors included — reaches the stats writer
+    through `filter_run`'s event loop (= C03.R8)."""
+    from . import c03
+    c03.r8(F, R)
+
+
 RULES = [("R8", r8, _LIB), ("R1", r1, _LIB), ("R2", r2, _LIB), ("R3", r3, _LIB), ("R4", r4, _LIB), ("R5", r5, ["all", "libtest"]),
-         ("R6", r6, _LIB), ("R7", r7, _LIB), ("R9", r9, ["zoo:default"]), ("R10", r10_init, _LIB), ("R11", r11, _LIB)]
+         ("R6", r6, _LIB), ("R7", r7, _LIB), ("R9", r9, ["zoo:default"]), ("R10", r10_init, _LIB), ("R11", r11, _LIB), ("R12", r12, _LIB)]
